@@ -293,7 +293,7 @@ PRIOS = [1, 2]
 
 class RNode:
     __slots__ = ("key", "kind", "prio", "children", "value", "obj",
-                 "removed")
+                 "removed", "default0")
 
     def __init__(self, key, kind, prio):
         self.key = key
@@ -303,6 +303,7 @@ class RNode:
         self.value = 3
         self.obj = None
         self.removed = []       # (root only) nodes taken out, newest last
+        self.default0 = None    # default value right after construction
 
 
 def r_canon(node):
@@ -376,12 +377,19 @@ def apply_both(model, rroot, op):
         parent_r = r_find(rroot, mp)
         parent = real_root if not mp else real_root.get(".".join(mp))
         dup = any(c.key == key for c in parent_r.children)
+        # top-level parameters are registered through the model itself when
+        # the priority is 2 (model.add_parameter), through parent= otherwise
+        via_model = (not mp) and pr == 2
         try:
             if kind == "int":
-                obj = InputParameterInt(key, "n", 3, pr, parent=parent,
+                obj = InputParameterInt(key, "n", 3, pr,
+                                        parent=None if via_model else parent,
                                         min_value=0, max_value=10)
             else:
-                obj = InputParameterMap(key, "n", pr, parent=parent)
+                obj = InputParameterMap(key, "n", pr,
+                                        parent=None if via_model else parent)
+            if via_model:
+                model.add_parameter(obj)
             made = True
         except ValueError:
             made = False
@@ -395,6 +403,8 @@ def apply_both(model, rroot, op):
         if made and not dup:
             node = RNode(key, kind, pr)
             node.obj = obj
+            import copy
+            node.default0 = copy.deepcopy(obj.default_value)
             # insert: by priority, ties in insertion order
             ch = parent_r.children
             i = len(ch)
@@ -459,7 +469,11 @@ def observe(model, rroot):
     # listing order of every map
     for mp in r_maps(rroot):
         node = r_find(rroot, mp)
-        m = real_root if not mp else real_root.get(".".join(mp))
+        try:
+            m = real_root if not mp else real_root.get(".".join(mp))
+        except Exception as ex:  # noqa
+            bad.append(("map-not-retrievable", mp, type(ex).__name__))
+            return bad
         got = list(m.value.keys())
         exp = [c.key for c in node.children]
         if got != exp:
@@ -478,6 +492,12 @@ def observe(model, rroot):
         ek = obj.extended_key()
         if ek != "root." + dotted:
             bad.append(("extended-key", dotted, ek))
+        # the default value is what it was after construction (for a map:
+        # whatever children come and go)
+        if obj.default_value != node.default0 or (
+                node.kind == "map" and obj.default_value is obj.value):
+            bad.append(("default-value-changed", dotted,
+                        repr(obj.default_value)[:60], repr(node.default0)))
         if node.kind == "int":
             if obj.value != node.value:
                 bad.append(("value", dotted, obj.value, node.value))
@@ -520,8 +540,13 @@ def replay_tree(hist):
     rroot = RNode("root", "map", 1)
     bad = []
     for op in hist:
-        bad += apply_both(model, rroot, op)
-        bad += observe(model, rroot)
+        try:
+            bad += apply_both(model, rroot, op)
+            bad += observe(model, rroot)
+        except Exception as ex:  # noqa  (a broken tree may break any step)
+            bad.append(("history-raised", op, type(ex).__name__,
+                        str(ex)[:80]))
+            break
     return model, rroot, bad
 
 
